@@ -41,18 +41,35 @@ def _hash_dir(h, root, exts):
                 h.update(open(p, 'rb').read())
 
 
-def tree_key():
-    h = hashlib.sha256()
+def _repo_hash(h):
     _hash_dir(h, os.path.join(REPO, 'src'), ('.rs',))
     for f in ('Cargo.toml', 'Cargo.lock'):
         p = os.path.join(REPO, f)
         if os.path.exists(p):
             h.update(open(p, 'rb').read())
-    for d in ('hook', 'contracts', 'preludes', 'lemmas', 'replay/src'):
-        _hash_dir(h, os.path.join(VERIF, d), ('.rs', '.py', '.vspec', '.toml'))
+
+
+def kani_key():
+    """everything a Kani result depends on: /repo sources + the hook"""
+    h = hashlib.sha256(b'kani')
+    _repo_hash(h)
+    _hash_dir(h, os.path.join(VERIF, 'hook'), ('.rs',))
+    return h.hexdigest()[:24]
+
+
+def verus_key():
+    """everything a Verus result depends on: /repo sources + contracts, preludes, lemmas, extractor"""
+    h = hashlib.sha256(b'verus')
+    _repo_hash(h)
+    for d in ('contracts', 'preludes', 'lemmas'):
+        _hash_dir(h, os.path.join(VERIF, d), ('.rs', '.vspec'))
     for f in ('lib/extract.py', 'lib/vunits.py', 'lib/rustlex.py'):
         h.update(open(os.path.join(VERIF, f), 'rb').read())
     return h.hexdigest()[:24]
+
+
+def tree_key():
+    return kani_key()[:12] + verus_key()[:12]
 
 
 def cache_get(key, oid):
@@ -464,19 +481,20 @@ def check_property(prop, tier, seed=0):
     t0 = time.time()
     os.environ['VERIF_TIER_RUNNING'] = tier
     key = tree_key()
+    kkey, vkey = kani_key(), verus_key()
     results = {}
     kobls = registry.kani_for(prop, tier)
     vunits_needed = registry.verus_for(prop, tier)
     # Verus first (seconds)
     for u in vunits_needed:
         for w in vunits.UNITS[u]['widths']:
-            run_verus_unit(u, w, results, key)
+            run_verus_unit(u, w, results, vkey)
     # Kani: one invocation per cfg, concurrently
     threads = []
     for cfg in registry.CFGS:
         obls = [o for (o, cfgs) in kobls if cfg in cfgs]
         if obls:
-            th = threading.Thread(target=run_kani_cfg, args=(cfg, obls, results, key))
+            th = threading.Thread(target=run_kani_cfg, args=(cfg, obls, results, kkey))
             th.start()
             threads.append(th)
     nobls = registry.native_for(prop, tier)
@@ -494,7 +512,7 @@ def check_property(prop, tier, seed=0):
                 cfg = 'sse2' if r['width'] == 16 else 'generic'
                 poid = 'k:%s:%s' % (paired, cfg)
                 if poid not in results:
-                    run_kani_cfg(cfg, [registry.KANI[paired]], results, key)
+                    run_kani_cfg(cfg, [registry.KANI[paired]], results, kkey)
                 pr = results.get(poid)
                 if pr and pr['status'] == 'pass' and pr['label'] == 'C':
                     r['status_verus'] = r['status']
